@@ -1,0 +1,43 @@
+//go:build verif
+
+package crypto
+
+import "sync"
+
+// Deterministic-simulation hooks (build tag verif).
+const simEnabled = true
+
+// SimRand, when set, replaces the operating system entropy source.
+var SimRand func(buf []byte)
+
+// SimYield, when set, is called at named points inside the CoSi nonce
+// check-then-act so a simulator can interleave concurrent callers.
+var SimYield func(point string)
+
+func simReadRand(buf []byte) bool {
+	if SimRand == nil {
+		return false
+	}
+	SimRand(buf)
+	return true
+}
+
+func simYield(point string) {
+	if SimYield != nil {
+		SimYield(point)
+	}
+}
+
+// simAcquire cooperatively waits (yielding to the simulator) until the mutex
+// could be taken. It never holds the mutex itself, so it provides no mutual
+// exclusion: the caller's own Lock() that follows is what protects the state.
+func simAcquire(point string, m *sync.Mutex) {
+	if SimYield == nil {
+		return
+	}
+	SimYield(point)
+	for !m.TryLock() {
+		SimYield(point + ".blocked")
+	}
+	m.Unlock()
+}
